@@ -148,8 +148,65 @@ fn path_offset(h: &RHeader) -> usize {
     12 + 16 + h.dst_host.len() + h.src_host.len()
 }
 
+/// Deviation switches. They are NOT part of the reference: [`step`] always runs with none of them.
+/// Each names one way in which an implementation may depart from the rules above; a check that has
+/// found a disagreement with the pure reference uses [`step_with`] to ask WHICH (smallest) set of
+/// departures reproduces the implementation's behaviour, and names the finding after it. A
+/// disagreement no set explains stays "unexplained".
+#[derive(Clone, Copy, Debug, Default, PartialEq, Eq)]
+pub struct Quirks {
+    /// after a cross-over the NEW hop field is also subjected to the ingress-interface check
+    /// (non-zero ingress of the new hop must equal the interface the packet arrived on)
+    pub xover_second_hop_ingress_check: bool,
+    /// the segment-change table is evaluated on the link type of the interface NAMED BY THE CURRENT
+    /// HOP FIELD as ingress, not of the interface the packet really arrived on (so a packet from
+    /// inside the AS can change segments; an unknown interface there is an unknown-ingress error)
+    pub segment_change_judged_by_hop_field_ingress: bool,
+    /// a hop field whose ingress (travel direction) is 0 passes the ingress check on any interface
+    pub zero_hop_ingress_is_wildcard: bool,
+    /// child->peer and peer->child are accepted as SEGMENT-CHANGE pairs
+    pub peer_pairs_in_segment_change_table: bool,
+    /// the Peering flag of the info field is ignored (SegID is updated on peering hops, a peering
+    /// hop at a segment boundary is an ordinary cross-over, no shape check)
+    pub peering_flag_ignored: bool,
+    /// a packet whose current segment has exactly one hop field is dropped
+    pub one_hop_segment_dropped: bool,
+    /// no link-type check for ingress/egress pairs inside a segment
+    pub no_within_segment_table: bool,
+}
+impl Quirks {
+    pub const NAMES: [&'static str; 7] = [
+        "xover-second-hop-ingress-check",
+        "segment-change-judged-by-hop-field-ingress",
+        "zero-hop-ingress-is-wildcard",
+        "peer-pairs-in-segment-change-table",
+        "peering-flag-ignored",
+        "one-hop-segment-dropped",
+        "no-within-segment-table",
+    ];
+    pub fn from_mask(m: u32) -> Quirks {
+        Quirks {
+            xover_second_hop_ingress_check: m & 1 != 0,
+            segment_change_judged_by_hop_field_ingress: m & 2 != 0,
+            zero_hop_ingress_is_wildcard: m & 4 != 0,
+            peer_pairs_in_segment_change_table: m & 8 != 0,
+            peering_flag_ignored: m & 16 != 0,
+            one_hop_segment_dropped: m & 32 != 0,
+            no_within_segment_table: m & 64 != 0,
+        }
+    }
+    pub fn names(m: u32) -> Vec<&'static str> {
+        (0..7).filter(|i| m & (1 << i) != 0).map(|i| Self::NAMES[i]).collect()
+    }
+}
+
 /// One border-router step. `link_down(link index)` tells whether a link of `topo.links` is down.
 pub fn step(topo: &Topo, at: AsIdx, ingress: u16, pkt: &[u8], now: u32, link_down: &dyn Fn(usize) -> bool) -> Step {
+    step_with(topo, at, ingress, pkt, now, link_down, &Quirks::default())
+}
+
+/// [`step`] with deviation switches (naming of findings only; see [`Quirks`]).
+pub fn step_with(topo: &Topo, at: AsIdx, ingress: u16, pkt: &[u8], now: u32, link_down: &dyn Fn(usize) -> bool, q: &Quirks) -> Step {
     let mut events: Vec<Event> = vec![];
     let mut dontcare: Vec<&'static str> = vec![];
     let mut notes: Vec<&'static str> = vec![];
@@ -191,7 +248,7 @@ pub fn step(topo: &Topo, at: AsIdx, ingress: u16, pkt: &[u8], now: u32, link_dow
     };
 
     // ---- peering hop? (decided once, from the position on arrival)
-    let peering = if p.infos[ci].peering() {
+    let peering = if p.infos[ci].peering() && !q.peering_flag_ignored {
         if p.seg_len[0] == 0 || p.seg_len[1] == 0 || p.seg_len[2] != 0 {
             return drop("peering-flag-on-non-two-segment-path");
         }
@@ -202,6 +259,9 @@ pub fn step(topo: &Topo, at: AsIdx, ingress: u16, pkt: &[u8], now: u32, link_dow
 
     // ---- current hop field
     let seg = p.seg_range(ci);
+    if seg.len() == 1 && q.one_hop_segment_dropped {
+        return drop("quirk: one-hop segment");
+    }
     if seg.len() == 1 && !peering {
         dontcare.push("one-hop-segment");
     }
@@ -224,7 +284,7 @@ pub fn step(topo: &Topo, at: AsIdx, ingress: u16, pkt: &[u8], now: u32, link_dow
     if events.contains(&Event::Reject(RejectClass::Expired)) {
         set_first(&mut first_reject, Verdict::Reject { class: RejectClass::Expired, if_code: None });
     }
-    if ingress != 0 && t_in != ingress {
+    if ingress != 0 && t_in != ingress && !(q.zero_hop_ingress_is_wildcard && t_in == 0) {
         events.push(Event::Reject(RejectClass::BadIngress));
         set_first(&mut first_reject, Verdict::Reject { class: RejectClass::BadIngress, if_code: Some(if cons_dir { IfCode::ConsIngress } else { IfCode::ConsEgress }) });
     }
@@ -301,6 +361,13 @@ pub fn step(topo: &Topo, at: AsIdx, ingress: u16, pkt: &[u8], now: u32, link_dow
         if p.seg_range(ei).len() == 1 {
             dontcare.push("one-hop-segment");
         }
+        if q.xover_second_hop_ingress_check {
+            let n_in = if ncons { nhop.cons_ingress } else { nhop.cons_egress };
+            if ingress != 0 && n_in != 0 && n_in != ingress {
+                events.push(Event::Reject(RejectClass::BadIngress));
+                set_first(&mut first_reject, Verdict::Reject { class: RejectClass::BadIngress, if_code: Some(if ncons { IfCode::ConsIngress } else { IfCode::ConsEgress }) });
+            }
+        }
         if expired(nts, nhop.exp_time, now) {
             events.push(Event::Reject(RejectClass::Expired));
             set_first(&mut first_reject, Verdict::Reject { class: RejectClass::Expired, if_code: None });
@@ -317,6 +384,20 @@ pub fn step(topo: &Topo, at: AsIdx, ingress: u16, pkt: &[u8], now: u32, link_dow
 
     // ---- egress interface and link-type pair
     let eg = if egress_if == 0 { None } else { topo.neighbour(at, egress_if) };
+    // link type the ingress side is judged by
+    let mut judged_ingress_role = ingress_role;
+    if xover && q.segment_change_judged_by_hop_field_ingress {
+        judged_ingress_role = if t_in == 0 { None } else { topo.neighbour(at, t_in).map(|n| n.2) };
+        if judged_ingress_role.is_none() {
+            events.push(Event::Reject(RejectClass::BadIngress));
+            set_first(&mut first_reject, Verdict::Reject { class: RejectClass::BadIngress, if_code: Some(if cons_dir { IfCode::ConsIngress } else { IfCode::ConsEgress }) });
+        }
+    } else if xover && ingress_role.is_none() {
+        // a segment change on a packet from inside the AS is never valid
+        events.push(Event::Reject(RejectClass::BadSegmentChange));
+        set_first(&mut first_reject, Verdict::Reject { class: RejectClass::BadSegmentChange, if_code: None });
+    }
+    let ingress_role = judged_ingress_role;
     match eg {
         None => {
             events.push(Event::Reject(RejectClass::BadEgress));
@@ -325,15 +406,15 @@ pub fn step(topo: &Topo, at: AsIdx, ingress: u16, pkt: &[u8], now: u32, link_dow
         Some((_, _, erole, _)) => {
             if xover {
                 let ok = match ingress_role {
-                    None => false, // a segment change on a packet from inside the AS is never valid
-                    Some(ir) => segment_change_ok(ir, erole),
+                    None => true, // already recorded above
+                    Some(ir) => segment_change_ok(ir, erole) || (q.peer_pairs_in_segment_change_table && matches!((ir, erole), (NeighbourRole::Child, NeighbourRole::Peer) | (NeighbourRole::Peer, NeighbourRole::Child))),
                 };
                 if !ok {
                     events.push(Event::Reject(RejectClass::BadSegmentChange));
                     set_first(&mut first_reject, Verdict::Reject { class: RejectClass::BadSegmentChange, if_code: None });
                 }
             } else if let Some(ir) = ingress_role {
-                if !within_segment_ok(ir, erole) {
+                if !within_segment_ok(ir, erole) && !q.no_within_segment_table {
                     events.push(Event::Reject(RejectClass::BadLinkPair));
                     set_first(&mut first_reject, Verdict::Reject { class: RejectClass::BadLinkPair, if_code: None });
                 }
